@@ -23,6 +23,8 @@ import (
 //	<pattern>@N   the pattern as left by a run that used chunk size N instead of this run's
 //	<pattern>!nodata / !short   afterwards the user deleted / halved the output files; the hidden
 //	              metadata directory stays (it then describes bytes that are no longer there)
+//	...!rootedmeta  the metadata lies where a run *with* a root directory keeps it
+//	              (<out>/<root>/.thruflux_resumedata), the place a flat run falls back to
 func applyPre(p *Prepared, outDir string) {
 	pattern, preChunk := p.Case.Pre, p.Case.Chunk
 	after := ""
@@ -68,7 +70,12 @@ func applyPre(p *Prepared, outDir string) {
 			continue
 		}
 		data := make([]byte, it.Size)
-		sc, err := transfer.CreateSidecar(transfer.SidecarPath(base, "", it.ID), it.ID, it.Size, preChunk)
+		metaBase := base
+		if strings.Contains(after, "rootedmeta") && p.M.Root != "" {
+			metaBase = filepath.Join(outDir, p.M.Root)
+			os.MkdirAll(metaBase, 0755)
+		}
+		sc, err := transfer.CreateSidecar(transfer.SidecarPath(metaBase, "", it.ID), it.ID, it.Size, preChunk)
 		if err != nil {
 			panic(err)
 		}
@@ -97,10 +104,10 @@ func applyPre(p *Prepared, outDir string) {
 		if err := sc.Flush(); err != nil {
 			panic(err)
 		}
-		switch after {
-		case "nodata":
+		switch {
+		case strings.Contains(after, "nodata"):
 			os.Remove(fp)
-		case "short":
+		case strings.Contains(after, "short"):
 			os.Truncate(fp, it.Size/2)
 		}
 	}
